@@ -706,3 +706,38 @@ def detect_hex(ctx):
             continue
         ctx.require((f, p_) == exp, q, 'a hex string of shape %s is classified %s, expected %s' % (name, (f, p_), exp), fn,
                     'a compressed public key that ends in 01 is imported as a private key (its first 32 bytes become the secret)' if 'public' in exp[0] else 'private key hex is classified as public')
+
+
+@PROP.obligation('C12.secret-width', canaries=[
+    mut.replace_expr('keys', 'Key.__init__', 'change_base(self.secret, 10, 16, 64)', 'change_base(self.secret, 10, 16)', 'secret of an integer import rendered without leading zeros'),
+])
+def secret_width(ctx):
+    """Key.__init__, integer import: private_byte / private_hex are the secret in FIXED width (32 bytes / 64 hex digits). The branch is
+    evaluated with the secret symbolic; the stored forms must be int2bytes(secret, 32, big) or change_base(secret, 10, 16, 64) and its
+    bytes - a minimal-length rendering drops the leading zero bytes of 1 in 256 secrets and the exported xprv / bytes no longer import."""
+    q = 'keys:Key.__init__'
+    fn = ctx.repo.func(q)
+    blks = [n for n in ast.walk(fn) if isinstance(n, ast.If) and "self.key_format == 'decimal'" in unparse(n.test)]
+    if len(blks) != 1:
+        ctx.undecided('Key.__init__: integer import branch not found')
+    it = Interp(ctx.repo, 'keys', hooks=dict(LAYOUT_HOOKS), self_cls='keys:Key')
+    st = State(env={'self': S(SELF), 'import_key': S(('var', 'n'), 'int')})
+    it.frames.append([])
+    end = it.exec_block(blks[0].body, st)
+    if end is None:
+        ctx.undecided('Key.__init__: integer import branch always raises')
+    N = ('var', 'n')
+    hx = ('call', 'change_base', (N, 10, 16, 64), ())
+    ok_hex = {hx, ('hex', ('int2bytes', N, 32, 'big')), ('mcall', ('int2bytes', N, 32, 'big'), 'hex', (), ())}
+    ok_bytes = {('fromhex', hx), ('int2bytes', N, 32, 'big')}
+    ph, pb = term(end.heap.get(A(SELF, 'private_hex'))), term(end.heap.get(A(SELF, 'private_byte')))
+    ctx.saw('integer import: private_hex = %s ; private_byte = %s' % (show(ph)[:70], show(pb)[:70]))
+    for name, got, ok in (('private_hex', ph, ok_hex), ('private_byte', pb, ok_bytes)):
+        if got in ok:
+            continue
+        widths = [s_ for s_ in subterms(('w', got)) if isinstance(s_, tuple) and s_ and ((s_[0] == 'int2bytes' and s_[2] not in (32,)) or (s_[0] == 'call' and s_[1] == 'change_base' and len(s_[2]) < 4))]
+        if widths or 'bit_length' in show(got):
+            ctx.violate(q, 'an integer secret is stored as %s = %s: not a fixed 32 byte / 64 digit form' % (name, show(got)[:100]), blks[0],
+                        'secrets below 2**248 get a short private_byte: HDKey(int).wif_private() is a truncated string that cannot be imported')
+        else:
+            ctx.unsure('%s: form of %s not recognised: %s' % (q, name, show(got)[:100]))
